@@ -1022,3 +1022,43 @@ Proof.
   repeat split; try (vm_compute; reflexivity); try (vm_compute; lia).
   eexists. repeat split; try (vm_compute; reflexivity). vm_compute. discriminate.
 Qed.
+
+(* ------------------------------------------------------------------ *)
+(* PPP control header: code | id | length | data as every sender in the repo frames it (sendPPPPacket, buildPPPPacket),
+   then ParsePAPPacket/… and the dispatcher *)
+Definition build_ppp (code id : N) (d : bytes) : bytes := code :: id :: put16 (4 + lenN d) ++ d.
+Lemma ppp_hdr_roundtrip v code id d : lenN d + 4 < 65536 -> ppp_hdr v (build_ppp code id d) = Ok (code, id, d).
+Proof.
+  intros H. unfold ppp_hdr, build_ppp.
+  assert (Hlen : lenN (code :: id :: put16 (4 + lenN d) ++ d) = 4 + lenN d) by (lens; lia).
+  destruct (lenN (code :: id :: put16 (4 + lenN d) ++ d) <? 4) eqn:E0; [lia|].
+  rewrite idx0, idx1. cbn [rbind].
+  rewrite (rd16 [code; id] (4 + lenN d) d) by (lens; lia). cbn [rbind].
+  destruct (lenN (code :: id :: put16 (4 + lenN d) ++ d) <? 4 + lenN d) eqn:E1; [lia|].
+  assert (Hv : (match v with Repaired => 4 + lenN d <? 4 | Defective => false end) = false) by (destruct v; lia).
+  rewrite Hv.
+  assert (Hs : sl 4 (4 + lenN d) (code :: id :: put16 (4 + lenN d) ++ d) = Ok d).
+  { replace (code :: id :: put16 (4 + lenN d) ++ d) with ((code :: id :: put16 (4 + lenN d)) ++ d ++ [])
+      by (rewrite app_nil_r; reflexivity).
+    rewrite (rdbytes (code :: id :: put16 (4 + lenN d)) d []); [reflexivity|lens; lia|lens; lia]. }
+  rewrite Hs. reflexivity.
+Qed.
+Lemma dispatcher_roundtrip v cfg code id d : lenN d + 4 < 65536 ->
+  handle_frame v cfg 49187 (build_ppp code id d) = Ok (RPap code id d) /\
+  handle_frame v cfg 49699 (build_ppp code id d) = Ok (RChap code id d).
+Proof.
+  intros H. unfold handle_frame, build_ppp.
+  assert (Hlen : lenN (code :: id :: put16 (4 + lenN d) ++ d) = 4 + lenN d) by (lens; lia).
+  change (49187 =? 87) with false. change (49699 =? 87) with false. cbv iota.
+  destruct (lenN (code :: id :: put16 (4 + lenN d) ++ d) <? 4) eqn:E0; [lia|].
+  rewrite idx0, idx1. cbn [rbind].
+  rewrite (rd16 [code; id] (4 + lenN d) d) by (lens; lia). cbn [rbind].
+  destruct (lenN (code :: id :: put16 (4 + lenN d) ++ d) <? 4 + lenN d) eqn:E1; [lia|].
+  assert (Hv : (match v with Repaired => 4 + lenN d <? 4 | Defective => false end) = false) by (destruct v; lia).
+  rewrite Hv.
+  assert (Hs : sl 4 (4 + lenN d) (code :: id :: put16 (4 + lenN d) ++ d) = Ok d).
+  { replace (code :: id :: put16 (4 + lenN d) ++ d) with ((code :: id :: put16 (4 + lenN d)) ++ d ++ [])
+      by (rewrite app_nil_r; reflexivity).
+    rewrite (rdbytes (code :: id :: put16 (4 + lenN d)) d []); [reflexivity|lens; lia|lens; lia]. }
+  rewrite Hs. cbn [rbind]. split; reflexivity.
+Qed.
